@@ -46,7 +46,7 @@ type typeDesc struct {
 	// cannot be compared (text XML cannot carry) the round trip is not judged
 	lossyTokens bool
 	// trigger: a minimal trigger class of the value, appended to finding keys ("" = none)
-	trigger func(v interface{}) string
+	trigger func(v interface{}, field string) string
 }
 
 type caseRec struct {
@@ -90,8 +90,18 @@ func sortKids(t *Tree) {
 	sort.SliceStable(t.Kids, func(i, j int) bool { return t.Kids[i].String() < t.Kids[j].String() })
 }
 
+// sortAttrs orders the attributes and drops the empty ones: from="" and no
+// from attribute are the same to every decoder in the library (the decoded
+// values are compared separately).
 func sortAttrs(t *Tree) {
 	t.walk(func(n *Tree) {
+		var as []xml.Attr
+		for _, a := range n.Attrs {
+			if a.Value != "" {
+				as = append(as, a)
+			}
+		}
+		n.Attrs = as
 		sort.SliceStable(n.Attrs, func(i, j int) bool {
 			return n.Attrs[i].Name.Space+" "+n.Attrs[i].Name.Local < n.Attrs[j].Name.Space+" "+n.Attrs[j].Name.Local
 		})
@@ -189,11 +199,13 @@ func (x *runner) runValue(td *typeDesc, v interface{}, c caseRec) {
 		return
 	}
 	inRange := td.timeOK == nil || td.timeOK(v)
-	trig := ""
-	if td.trigger != nil {
-		if t := td.trigger(v); t != "" {
-			trig = ":" + t
+	trig := func(field string) string {
+		if td.trigger != nil {
+			if t := td.trigger(v, field); t != "" {
+				return ":" + t
+			}
 		}
+		return ""
 	}
 	classes := []string{"type/" + td.name}
 	if !inRange {
@@ -329,7 +341,7 @@ func (x *runner) runValue(td *typeDesc, v interface{}, c caseRec) {
 				got = append(got, nil)
 				continue
 			}
-			x.fail(td, "roundtrip/error"+trig, "own output ("+d.name+") does not unmarshal: "+err.Error(), c)
+			x.fail(td, "roundtrip/error"+trig("error"), "own output ("+d.name+") does not unmarshal: "+err.Error(), c)
 			return
 		}
 		pg := td.proj(ptr)
@@ -361,7 +373,7 @@ func (x *runner) runValue(td *typeDesc, v interface{}, c caseRec) {
 			g = got[1]
 		}
 		if f := diffProj(want, g); f != "" {
-			x.fail(td, "roundtrip/"+f+trig, fmt.Sprintf("decoded value differs from the original: want %+v got %+v", want, g), c)
+			x.fail(td, "roundtrip/"+f+trig(f), fmt.Sprintf("decoded value differs from the original: want %+v got %+v", want, g), c)
 		}
 	}
 }
